@@ -144,6 +144,43 @@ fn install_forms(r: &mut Rep) {
         } )* };
     }
     single!(0, 1, 8, 9, 14, 15, 18, 21, 22, 28, 30, 31, 32, 128, 255);
+    // the macro arguments are ordinary expressions: each is evaluated exactly once (a table taken from a pool, a range
+    // handed out by a vector allocator), and the one table / one range they yield is what gets installed
+    for form in 0..3u8 {
+        r.ev(true);
+        let mut tabs: Vec<InterruptDescriptorTable> = (0..4).map(|_| InterruptDescriptorTable::new()).collect();
+        let (nt, nr) = (core::cell::Cell::new(0usize), core::cell::Cell::new(0usize));
+        fn pick<'a>(tabs: &'a mut [InterruptDescriptorTable], n: &core::cell::Cell<usize>) -> &'a mut InterruptDescriptorTable {
+            n.set(n.get() + 1);
+            &mut tabs[(n.get() - 1).min(3)]
+        }
+        fn alloc(n: &core::cell::Cell<usize>) -> core::ops::RangeInclusive<u8> {
+            n.set(n.get() + 1);
+            let lo = 32u8.wrapping_add(37u8.wrapping_mul(n.get() as u8 - 1));
+            lo..=lo.wrapping_add(3)
+        }
+        let res = catch(|| match form {
+            0 => set_general_handler!(pick(&mut tabs, &nt), gh_noop, alloc(&nr)),
+            1 => { nr.set(1); set_general_handler!(pick(&mut tabs, &nt), gh_noop) }
+            _ => { nr.set(1); set_general_handler!(pick(&mut tabs, &nt), gh_noop, 33) }
+        });
+        let case = format!("installonce {}", form);
+        let (nt, nr) = (nt.get(), nr.get());
+        if res.is_err() || nt != 1 || nr != 1 {
+            r.viol("C13|install|macro-evaluates-an-argument-expression-more-or-less-than-once", &case, &format!("table expression {}x, range expression {}x, panic {}", nt, nr, res.is_err()));
+        }
+        for (ti, t) in tabs.iter().enumerate() {
+            let b = table_bytes(t);
+            for v in 0..=255u8 {
+                let g = decode_gate(b[16 * v as usize..16 * v as usize + 16].try_into().unwrap());
+                let want = ti == 0 && !RESERVED_VECTORS.contains(&v) && match form { 0 => (32..=35).contains(&v), 1 => true, _ => v == 33 };
+                if g.p != want {
+                    r.viol("C13|install|with-side-effecting-argument-expressions-wrong-present-set", &case, &format!("table {} vector {} present {}", ti, v, g.p));
+                    break;
+                }
+            }
+        }
+    }
 }
 
 // ------------------------------------------------------------------ (b) native entry
@@ -411,6 +448,7 @@ pub fn run(a: &Args) {
             "iretq" => crate::c13iret::run(&mut r, a),
             "entryframe" => { crate::simcpu::init(); crate::c13iret::entry_frames(&mut r, &Args { prop: "C13".into(), tier: "thorough".into(), shard: 0, nshards: 1, replay: None, extra: vec![] }) }
             "highgate" => high_half_gates(&mut r),
+            "installonce" => install_forms(&mut r),
             _ => install_forms(&mut r),
         }
         r.emit();
